@@ -98,6 +98,13 @@ class FrameInterp(Interp):
 
     def compare(self, op, x, y):
         xi, yi = self.to_int(x), self.to_int(y)
+        # k*LEN + c  op  y   <=>   k*LEN  op  y - c      (lengths of suffixes of the input)
+        if isinstance(xi, Sym) and isinstance(yi, Sym) and xi.k == yi.k and not isinstance(xi, BV):
+            return Interp.compare(self, op, xi.c if xi.c else 0, yi.c if yi.c else 0)
+        if isinstance(xi, Sym) and not isinstance(xi.c, int) and lin_parts(yi) is not None:
+            return Interp.compare(self, op, Sym(xi.k), sub(yi, xi.c))
+        if isinstance(yi, Sym) and not isinstance(yi.c, int) and lin_parts(xi) is not None:
+            return Interp.compare(self, op, sub(xi, yi.c), Sym(yi.k))
         if not isinstance(xi, BV) and not isinstance(yi, BV):
             return Interp.compare(self, op, xi, yi)
         # bit-vector (in)equality
@@ -132,6 +139,8 @@ class FrameInterp(Interp):
             if hi is None:
                 if lin_parts(lo) == (0, 0):
                     return Sym(1)
+                if lin_parts(lo) is not None:
+                    return Sym(1, sub(0, lo))          # data[lo..].len() = LEN - lo
                 raise Undecided("length of an open sub-slice")
             return sub(hi, lo)
         return Interp.slice_len(self, v)
